@@ -14,7 +14,7 @@ fn main() {
         let mo = Model::from_position(p.board, p.gold_to_move, p.move_number);
         match type_permuted_twin(&mo.board) { None => { notwin += 1; continue; } Some(t) => { if engine_from_position(&t, mo.gold_to_move, 7).is_err() { parsefail += 1; } } }
         let before = eng.valid_actions_no_rep();
-        interfere_with(&eng, &mo);
+        interfere_with(&eng, &mo, 0);
         let after = eng.valid_actions_no_rep();
         n += 1;
         if before != after { diff += 1; }
